@@ -79,6 +79,7 @@ Proof.
   assert (EA : dec_s be A = ext_size e) by (unfold A; apply dec_s_enc_s; rewrite ?pow256_4_half; lia).
   assert (EB : dec_s be B = ecode e) by (unfold B; apply dec_s_enc_s; rewrite ?pow256_4_half; lia).
   rewrite !EA, !EB.
+  replace ((ext_size e =? 0) && (ecode e =? 0)) with false by lia.
   assert (HP : zlen P = ext_size e - 8 - zlen (econtent e)) by (unfold P; apply zeros_length; lia).
   rewrite (fread_app_exact (ext_size e - 8)) by (rewrite zlen_app; lia).
   rewrite zlen_app, HP.
@@ -138,6 +139,47 @@ Proof.
   rewrite app_length. unfold zlen in E. lia.
 Qed.
 
+Lemma take_zeros_app n k (r : list Z) : 0 <= n <= k -> take n (zeros k ++ r) = zeros n.
+Proof.
+  intros H. unfold take, zeros. rewrite firstn_app, repeat_length.
+  replace (Z.to_nat n - Z.to_nat k)%nat with 0%nat by lia. cbn [firstn]. rewrite app_nil_r.
+  replace (Z.to_nat k) with (Z.to_nat n + (Z.to_nat k - Z.to_nat n))%nat by lia.
+  rewrite repeat_app, firstn_app, repeat_length, Nat.sub_diag. cbn [firstn]. rewrite app_nil_r.
+  rewrite firstn_all2 by (rewrite repeat_length; lia). reflexivity.
+Qed.
+
+Lemma zlen_zeros n : 0 <= n -> zlen (zeros n) = n.
+Proof. apply zeros_length. Qed.
+
+(* the reader meeting the zero fill: stops *)
+Lemma read_zero_fill fuel be size k rest acc : 16 <= size -> 8 <= k ->
+  read_exts (S fuel) be size (zeros k ++ rest) acc = Ok (rev acc, drop 8 (zeros k ++ rest)).
+Proof.
+  intros Hs Hk. cbn [read_exts]. replace ((16 <=? size) || (size <? 0)) with true by lia.
+  unfold fread. cbn [Z.ltb Z.compare].
+  rewrite take_zeros_app by lia.
+  change (zeros 8) with [0;0;0;0;0;0;0;0]. cbn [zlen length Z.of_nat Pos.of_succ_nat Pos.succ Z.eqb Pos.eqb andb negb].
+  destruct be; vm_compute (dec_s _ (take 4 _)); vm_compute (dec_s _ (drop 4 _)); reflexivity.
+Qed.
+
+Lemma read_exts_fill be : forall l fuel slack k rest acc,
+  Forall wf_ext l -> (length l + 1 < fuel)%nat -> 16 <= slack -> 8 <= k ->
+  read_exts fuel be (sum_sizes l + slack) (write_exts be l ++ zeros k ++ rest) acc
+  = Ok (rev acc ++ map strip_ext l, drop 8 (zeros k ++ rest)).
+Proof.
+  induction l as [|e l IH]; intros fuel slack k rest acc Hwf Hf Hs Hk.
+  - cbn [write_exts flat_map app sum_sizes fold_right map]. destruct fuel as [|fuel]; [simpl in Hf; lia|].
+    rewrite Z.add_0_l, app_nil_r. now apply read_zero_fill.
+  - inversion Hwf as [|? ? He Hl]; subst. destruct fuel as [|fuel]; [simpl in Hf; lia|].
+    cbn [write_exts flat_map]. fold (write_exts be l). rewrite <- app_assoc.
+    pose proof (ext_size_ge16 e). pose proof (sum_sizes_nonneg l). cbn [sum_sizes fold_right].
+    fold (sum_sizes l).
+    rewrite read_one by (auto; lia).
+    replace (ext_size e + sum_sizes l + slack - ext_size e) with (sum_sizes l + slack) by lia.
+    rewrite IH; [|assumption|simpl in Hf; lia|lia|lia].
+    cbn [rev map]. now rewrite <- app_assoc.
+Qed.
+
 (* ---- the statements used by Props.v ---- *)
 
 Lemma size_mult16 c : 0 <= c ->
@@ -183,50 +225,57 @@ Qed.
    offset is the automatic one or a user offset with less than 16 bytes of slack *)
 Lemma single_file_roundtrip hsize be vox l data :
   Forall wf_ext l -> 0 <= hsize ->
-  (vox = 0 \/ hsize + 4 + sum_sizes l <= vox < hsize + 4 + sum_sizes l + 16 \/ l = []  /\ hsize + 4 <= vox) ->
+  (vox = 0 \/ hsize + 4 + sum_sizes l <= vox) ->
   exists vox' tail,
     single_tail hsize be vox l data = Some (vox', tail)
     /\ hsize + 4 + sum_sizes l <= vox'
     /\ (vox = 0 -> vox' = hsize + 4 + sum_sizes l)
+    /\ (vox <> 0 -> vox' = vox)
     /\ single_read hsize be vox' tail = Ok (map strip_ext l, data).
 Proof.
   intros Hwf Hh Hv. pose proof (sum_sizes_nonneg l) as Hnn.
   unfold single_tail, hdr_write, single_vox_offset. cbn [andb].
   set (minv := hsize + 4 + sum_sizes l).
-  assert (Hguard : negb (vox =? 0) && (vox <? minv) = false).
-  { destruct Hv as [->|[H|[-> H]]]; [reflexivity|lia|]. unfold minv; simpl. lia. }
+  assert (Hguard : negb (vox =? 0) && (vox <? minv) = false) by (destruct Hv as [->|H]; [reflexivity|lia]).
   rewrite Hguard.
   set (vox' := if vox =? 0 then minv else vox).
-  assert (Hvox' : minv <= vox' /\ (vox' < minv + 16 \/ l = [])).
-  { unfold vox'. destruct Hv as [->|[H|[-> H]]]; simpl; [lia| |].
-    - destruct (Z.eqb_spec vox 0); unfold minv; lia.
-    - destruct (Z.eqb_spec vox 0); [lia|]. split; [|right; reflexivity]. unfold minv; simpl; lia. }
+  assert (Hvox' : minv <= vox') by (unfold vox'; destruct (Z.eqb_spec vox 0); lia).
+  assert (Hv0 : vox = 0 -> vox' = minv) by (intros ->; reflexivity).
+  assert (Hv1 : vox <> 0 -> vox' = vox) by (intros H; unfold vox'; destruct (Z.eqb_spec vox 0); [contradiction|reflexivity]).
   destruct l as [|e l'].
   - (* no extensions: extender 0, zero fill, data *)
     exists vox', ([0;0;0;0] ++ zeros (vox' - hsize - zlen [0;0;0;0]) ++ data).
-    split; [reflexivity|]. split; [lia|]. split; [intros ->; reflexivity|].
+    split; [reflexivity|]. split; [exact Hvox'|]. split; [exact Hv0|]. split; [exact Hv1|].
     unfold single_read, hdr_read.
     rewrite (fread_app_exact 4 [0;0;0;0]) by reflexivity.
     cbn [zlen length nth Z.of_nat Pos.of_succ_nat Pos.succ Z.ltb Z.compare Pos.compare Pos.compare_cont Z.eqb orb].
     f_equal. f_equal.
-    unfold minv in *. simpl in Hvox'. change (zlen [0;0;0;0]) with 4.
+    unfold minv in *. cbn [sum_sizes fold_right] in Hvox'. change (zlen [0;0;0;0]) with 4.
     assert (E : vox' - hsize = zlen ([0;0;0;0] ++ zeros (vox' - hsize - 4))).
     { rewrite zlen_app, zeros_length by lia. change (zlen [0;0;0;0]) with 4. lia. }
     rewrite app_assoc. apply drop_app_len. symmetry; exact E.
   - set (l := e :: l') in *.
     exists vox', (([1;0;0;0] ++ write_exts be l) ++ zeros (vox' - hsize - zlen ([1;0;0;0] ++ write_exts be l)) ++ data).
-    split; [reflexivity|]. split; [lia|]. split; [intros ->; reflexivity|].
-    destruct Hvox' as [Hlo [Hhi|Habs]]; [|discriminate].
+    split; [reflexivity|]. split; [exact Hvox'|]. split; [exact Hv0|]. split; [exact Hv1|].
     unfold single_read, hdr_read.
     rewrite <- !app_assoc. rewrite (fread_app_exact 4 [1;0;0;0]) by reflexivity.
     cbn [zlen length nth Z.of_nat Pos.of_succ_nat Pos.succ Z.ltb Z.compare Pos.compare Pos.compare_cont Z.eqb orb].
-    replace (vox' - (hsize + 4)) with (sum_sizes l + (vox' - minv)) by (unfold minv; lia).
-    rewrite exts_roundtrip_single by (auto; lia).
-    f_equal. f_equal.
     pose proof (write_exts_length be l Hwf) as Hlen.
     set (Z0 := zeros _).
     assert (HZ : zlen Z0 = vox' - minv).
     { unfold Z0. rewrite zeros_length; rewrite zlen_app, Hlen; change (zlen [1;0;0;0]) with 4; unfold minv; lia. }
+    assert (Hexts : exists r, read_exts_top be (vox' - (hsize + 4)) (write_exts be l ++ Z0 ++ data) = Ok (map strip_ext l, r)).
+    { replace (vox' - (hsize + 4)) with (sum_sizes l + (vox' - minv)) by (unfold minv; lia).
+      destruct (Z_lt_ge_dec (vox' - minv) 16) as [Hsmall|Hbig].
+      - eexists. apply exts_roundtrip_single; [assumption|lia].
+      - eexists. unfold read_exts_top.
+        assert (Hk : Z0 = zeros (vox' - minv)).
+        { unfold Z0. f_equal. rewrite zlen_app, Hlen. change (zlen [1;0;0;0]) with 4. unfold minv. lia. }
+        rewrite Hk. apply (read_exts_fill be l _ (vox' - minv) (vox' - minv) data []); [assumption| |lia|lia].
+        pose proof (length_lt_write_exts be l [] Hwf) as HL. rewrite app_nil_r in HL.
+        rewrite !app_length. unfold zeros. rewrite repeat_length. lia. }
+    destruct Hexts as [r Hr]. rewrite Hr.
+    f_equal. f_equal.
     assert (E : vox' - hsize = zlen ([1;0;0;0] ++ write_exts be l ++ Z0)).
     { rewrite !zlen_app, Hlen, HZ. change (zlen [1;0;0;0]) with 4. unfold minv. lia. }
     replace ([1;0;0;0] ++ write_exts be l ++ Z0 ++ data) with (([1;0;0;0] ++ write_exts be l ++ Z0) ++ data)
